@@ -77,6 +77,9 @@ func (msg *Message) DecodeMsg(dc *msgp.Reader) error {
 		return msgp.ArrayError{Wanted: 4, Got: sz}
 	}
 
+	// options of an earlier message must not survive into this one
+	msg.Options = nil
+
 	if msg.Tag, err = dc.ReadString(); err != nil {
 		return msgp.WrapError(err, "Tag")
 	}
@@ -121,6 +124,9 @@ func (msg *Message) UnmarshalMsg(bits []byte) ([]byte, error) {
 	if sz != 3 && sz != 4 {
 		return bits, msgp.ArrayError{Wanted: 4, Got: sz}
 	}
+
+	// options of an earlier message must not survive into this one
+	msg.Options = nil
 
 	if msg.Tag, bits, err = msgp.ReadStringBytes(bits); err != nil {
 		return bits, msgp.WrapError(err, "Tag")
@@ -217,6 +223,9 @@ func (msg *MessageExt) DecodeMsg(dc *msgp.Reader) error {
 		return msgp.ArrayError{Wanted: 4, Got: sz}
 	}
 
+	// options of an earlier message must not survive into this one
+	msg.Options = nil
+
 	if msg.Tag, err = dc.ReadString(); err != nil {
 		return msgp.WrapError(err, "Tag")
 	}
@@ -261,6 +270,9 @@ func (msg *MessageExt) UnmarshalMsg(bits []byte) ([]byte, error) {
 	if sz != 3 && sz != 4 {
 		return bits, msgp.ArrayError{Wanted: 4, Got: sz}
 	}
+
+	// options of an earlier message must not survive into this one
+	msg.Options = nil
 
 	if msg.Tag, bits, err = msgp.ReadStringBytes(bits); err != nil {
 		return bits, msgp.WrapError(err, "Tag")
